@@ -569,7 +569,7 @@ SHAPE = {"triangle": 3, "quad": 3, "unit_grid": 3, "unit_triangle": 3, "tetrahed
 
 def gen_cases(rng, tier):
     quick = tier == "quick"
-    R = 7 if quick else 12
+    R = 7 if quick else 10
     cs = []
     add = lambda g, **kw: cs.append({"gen": g, "kw": kw})
     b2 = (False, True)
@@ -639,7 +639,7 @@ def gen_cases(rng, tier):
     for nu, nv in ((1, 1), (1, 3), (3, 1), (0, 2)):
         add("unit_grid", nu=nu, nv=nv, triangulate=False, generate_uvs=False)
     # -- random larger ones
-    nbig = 24 if quick else 1800
+    nbig = 24 if quick else 600
     for _ in range(nbig):
         g = rng.choice(["unit_grid", "unit_triangle", "torus", "sphere_uv", "cylinder", "ring", "flat_ring"])
         a, b = rng.randint(2, 40), rng.randint(3, 40)
@@ -832,7 +832,7 @@ def run(ctx):
     ctx.rule = ("every generator x all resolutions up to %d x %d (minimal and unequal included) x all boolean switches, plus random "
                 "larger resolutions, dyadic radii/centres/corner points; malformed stream: ring with N<3. Non-trivial = an "
                 "admissible call that returned a mesh with at least one face or edge; distinct by canonical JSON of the call"
-                % ((7, 7) if quick else (12, 12)))
+                % ((7, 7) if quick else (10, 10)))
     ctx.assumptions += ["admissible resolutions: grids/triangles nu,nv>=2; torus segments>=3 and 0<minor<major radius; "
                         "cylinder N>=3, P1!=P2; sphere_uv n_lat>=1, n_long>=3; ring N>=3 (smaller N must raise); flat_ring N>=1; "
                         "closed chain n>=3; radii > 0",
